@@ -1211,10 +1211,11 @@ class Vector():
 			Sorted vector with same dtype
 		"""
 		# Build key for each element
-		if na_last:
+		# reverse=True flips the whole key order, so flip the None flag with it
+		if na_last != reverse:
 			key_fn = lambda x: (x is None, x if x is not None else 0)
 		else:
-			key_fn = lambda x: (0 if x is None else 1, x if x is not None else 0)
+			key_fn = lambda x: (x is not None, x if x is not None else 0)
 		
 		new_values = tuple(sorted(self._underlying, key=key_fn, reverse=reverse))
 
